@@ -420,6 +420,17 @@ pub fn iter_routes<I: Iterator>(mk: &dyn Fn() -> I, pj: &dyn Fn(I::Item) -> J) -
 			return Some(format!("skip({k})"));
 		}
 	}
+	// skipping astronomically far leaves nothing (counters narrower than usize would wrap)
+	for far in [usize::MAX, 1usize << 32, (1usize << 32) + 1, (1usize << 16) + 1, 256 + 1] {
+		if far > n {
+			if mk().nth(far).is_some() {
+				return Some(format!("nth({far})"));
+			}
+			if far < usize::MAX && mk().skip(far).next().is_some() {
+				return Some(format!("skip({far})"));
+			}
+		}
+	}
 	// size_hint stays consistent while stepping
 	let mut it = mk();
 	for left in (0..=n).rev() {
